@@ -19,11 +19,51 @@ MPC = 'exabgp.bgp.message.update.nlri.collection.MPNLRICollection'
 NEIGHBOR = 'exabgp.bgp.neighbor.neighbor.Neighbor'
 
 
-def _lambda_table(d: ast.Dict) -> dict[str, ast.Lambda]:
+def _expr_of_body(body: list[ast.stmt]) -> ast.expr | None:
+    """the value a small function returns, as one expression: `if c: return A` / `return B` reads `A if c else B`"""
+    body = [st for st in body if not (isinstance(st, ast.Expr) and isinstance(st.value, ast.Constant))]
+    if not body:
+        return None
+    st = body[0]
+    if isinstance(st, ast.Return) and st.value is not None:
+        return st.value
+    if isinstance(st, ast.If):
+        a = _expr_of_body(st.body)
+        b = _expr_of_body(st.orelse if st.orelse else body[1:])
+        if a is not None and b is not None:
+            return ast.copy_location(ast.IfExp(test=st.test, body=a, orelse=b), st)
+    return None
+
+
+def _as_lambda(fi, v: ast.expr) -> ast.Lambda | None:  # noqa: ANN001
+    """a table entry as a lambda: a lambda, or a reference to a small function of the same class / module"""
+    if isinstance(v, ast.Lambda):
+        return v
+    fn = None
+    d = dotted(v) or ''
+    if isinstance(v, ast.Attribute) and fi.cls is not None and d.count('.') == 1 and d.split('.')[0] in ('self', 'cls', fi.cls.name):
+        fn = fi.cls.methods.get(v.attr)
+    elif isinstance(v, ast.Name):
+        fn = fi.module.functions.get(v.id)
+    if fn is None or isinstance(fn.node, ast.Lambda):
+        return None
+    e = _expr_of_body(fn.node.body)
+    if e is None:
+        return None
+    decos = {ast.unparse(x) for x in fn.node.decorator_list}
+    params = list(fn.node.args.args)
+    if fn.cls is not None and 'staticmethod' not in decos:
+        params = params[1:]
+    lam = ast.Lambda(args=ast.arguments(posonlyargs=[], args=params, kwonlyargs=[], kw_defaults=[], defaults=[]), body=e)
+    return ast.copy_location(lam, v)
+
+
+def _lambda_table(d: ast.Dict, fi=None) -> dict[str, ast.Lambda]:  # noqa: ANN001
     out = {}
     for k, v in zip(d.keys, d.values):
-        if isinstance(v, ast.Lambda):
-            out[(dotted(k) or norm(k)).rsplit('.', 1)[-1]] = v
+        lam = v if isinstance(v, ast.Lambda) else (_as_lambda(fi, v) if fi is not None else None)
+        if lam is not None:
+            out[(dotted(k) or norm(k)).rsplit('.', 1)[-1]] = lam
     return out
 
 
@@ -63,7 +103,7 @@ def check(model: Model, run: Run) -> None:
         if isinstance(n, (ast.Assign, ast.AnnAssign)):
             tg = n.targets[0] if isinstance(n, ast.Assign) else n.target
             if isinstance(tg, ast.Name) and isinstance(n.value, ast.Dict):
-                tables[tg.id] = _lambda_table(n.value)
+                tables[tg.id] = _lambda_table(n.value, pa)
     # the two dict-of-lambdas tables, recognised by what they hold (not by their names): defaults are keyed by ORIGIN,
     # the skip predicates by NEXT_HOP
     dname = [nm for nm, t in tables.items() if 'ORIGIN' in t]
@@ -108,7 +148,12 @@ def check(model: Model, run: Run) -> None:
         if isinstance(e, ast.Call) and 'make_aspath' in norm(e.func) and e.args and isinstance(e.args[0], ast.List) and len(e.args[0].elts) == 1:
             seg = e.args[0].elts[0]
             if isinstance(seg, ast.Call) and (dotted(seg.func) or '').endswith('SEQUENCE') and seg.args and isinstance(seg.args[0], ast.List) and len(seg.args[0].elts) == 1:
-                who = srcs.get(dotted(seg.args[0].elts[0]) or '')
+                nm_ = dotted(seg.args[0].elts[0]) or ''
+                who = srcs.get(nm_)
+                lparams = [a.arg for a in lam.args.args]
+                if nm_ in lparams and len(dcalls) == 1 and lparams.index(nm_) < len(dcalls[0].args):
+                    # a parameter of the entry: what the call default[code](...) passes at that position
+                    who = srcs.get(dotted(dcalls[0].args[lparams.index(nm_)]) or '')
                 seq_ok = who == 'local'
                 detail = 'eBGP: SEQUENCE[%s]' % norm(seg.args[0].elts[0])
         ok = how == 'ifexp' and bool(empty) and seq_ok
@@ -466,15 +511,30 @@ def _r5_mp(model: Model, run: Run, folder: Folder) -> None:
     # next hop: RD-size zero bytes + address
     fkey = enc.node.args.args[2].arg if len(enc.node.args.args) > 2 else '?'
     rdv = [nm for nm, ds in el.defs.items() if any(h == 'assign[1]' and v is not None and amatch('Family.size.get(V_k, (0, 0))', v, {'V_k': fkey}) is not None for v, h, _ in ds)]
-    pre = [nm for nm in el.defs if len(rdv) == 1 and any(amatch("bytes([0]) * V_rd if V_rd else b''", v, {'V_rd': rdv[0]}) is not None or amatch('bytes([0]) * V_rd', v, {'V_rd': rdv[0]}) is not None for v in el.values(nm))]
-    addr = el.from_value(lambda v: isinstance(v, ast.Call) and isinstance(v.func, ast.Attribute) and v.func.attr == 'pack_ip' and isinstance(v.func.value, ast.Name) and v.func.value.id == enc.node.args.args[1].arg)
-    rets = [r for r in walk_no_nested(enc.node) if isinstance(r, ast.Return) and r.value is not None and addr and addr[0] in el.reads(r.value)]
-    ok = len(pre) == 1 and len(addr) == 1 and bool(rets)
+    rdv += [nm for nm, ds in el.defs.items() if any(h == 'assign' and v is not None and amatch('Family.size.get(V_k, (0, 0))[1]', v, {'V_k': fkey}) is not None for v, h, _ in ds)]
+    nhp = enc.node.args.args[1].arg if len(enc.node.args.args) > 1 else '?'
+    rets = [r for r in walk_no_nested(enc.node) if isinstance(r, ast.Return) and r.value is not None and el.depends_on(r.value, [nhp]) and 'pack_ip' in el.expand(r.value, depth=6)]
+    ok = len(rdv) == 1 and bool(rets)
+    n_ok = 0
     for r in rets:
-        v = r.value
-        while isinstance(v, ast.BinOp) and isinstance(v.op, ast.Add) and isinstance(v.left, ast.BinOp):
-            v = v.left
-        ok = ok and isinstance(v, ast.BinOp) and isinstance(v.left, ast.Name) and v.left.id == pre[0] and isinstance(v.right, ast.Name) and v.right.id == addr[0]
+        # the returned concatenation with the locals written out (the RD size kept): first the zero bytes, then the address;
+        # the prefix is decided by evaluating it for an RD size of 0 and of 8, however it is spelt
+        terms: list[ast.AST] = []
+
+        def flat(e: ast.AST) -> None:
+            if isinstance(e, ast.BinOp) and isinstance(e.op, ast.Add):
+                flat(e.left)
+                flat(e.right)
+            else:
+                terms.append(e)
+
+        flat(el.expanded(r.value, depth=6, keep=rdv))
+        good = len(terms) >= 2 and norm(terms[1]) == '%s.pack_ip()' % nhp
+        if good:
+            for size in (0, 8):
+                good = good and folder.fold(terms[0], enc.module, enc.cls, {rdv[0]: size}) == b'\x00' * size
+        ok = ok and good
+        n_ok += 1
     run.check(ok, enc.qualname, 'next hop = RD-size zero bytes + packed address', enc.loc(), 'RFC 4364 4.3.2 / RFC 4659: VPN next hops are prefixed by an all-zero RD')
     fam = model.cls('exabgp.protocol.family.Family')
     size = fam.assigns.get('size')
